@@ -461,6 +461,7 @@ func H_C05_lookup_every_scalar_kind() {
 			return nil, mval{kind: TypeNil}
 		case 2:
 			f := hFiniteFloat()
+			verifAssume(f != 0) // whether +0 and -0 are "the same value" for a lookup is not settled by the property
 			return f, mval{kind: TypeFloat, f: f}
 		case 3:
 			s := hBytesStr(1)
